@@ -1073,22 +1073,26 @@ pub fn case_bundle(bytes: &[u8], ctx: &mut Ctx) -> CaseResult {
         match validate_clvm_and_signature(&sb, env.max_cost, &env.net.consts, env.flags) {
             Err(err) => rejected.push(format!("validate_clvm_and_signature (second run): {err:?}")),
             Ok((_, gts)) => {
-                vensure!(
-                    gts.len() == pairs.len(),
-                    "C05:prevalidation-returns-other-number-of-pairings",
-                    "validate_clvm_and_signature returned {} pairings for {} conditions",
-                    gts.len(),
-                    pairs.len()
-                );
+                // (sha256(key | message), pairing) as the mempool would hand
+                // them to the block validation cache; matched by hash, not by
+                // position
                 let pre = BlsCache::default();
-                for ((pk, m), (_, gt)) in pairs.iter().zip(gts.iter()) {
+                let mut matched = 0usize;
+                for (pk, m) in &pairs {
                     let mut aug = pk.clone();
                     aug.extend_from_slice(m);
-                    pre.update(&aug, gt.clone());
+                    let h = condgen::sha(&[&aug]);
+                    if let Some((_, gt)) = gts.iter().find(|(gh, _)| *gh == h) {
+                        pre.update(&aug, gt.clone());
+                        matched += 1;
+                    }
+                }
+                if matched == pairs.len() {
+                    ctx.label("prevalidation:every-rules-pair-has-a-returned-pairing");
                 }
                 match run_entry(v1, &bundle, &sig, Some(&pre), &env) {
                     Ok(()) => ctx.label("positive:parse_spends:cache-prevalidated"),
-                    Err(err) => rejected.push(format!("{} (cache filled from pre-validation, in emission order): {err}", v1.name())),
+                    Err(err) => rejected.push(format!("{} (cache filled with the pairings returned by pre-validation): {err}", v1.name())),
                 }
             }
         }
@@ -1288,14 +1292,6 @@ fn must_reject_everywhere(
     ctx: &mut Ctx,
     label: &str,
 ) -> CaseResult {
-    // run_spendbundle is the first half of mempool pre-validation
-    {
-        let sb = SpendBundle::new(coin_spends(b), Signature::default());
-        let mut a = Allocator::new();
-        if run_spendbundle(&mut a, &sb, env.max_cost, env.flags, &env.net.consts).is_ok() {
-            vfail!(sig_name, "{what}: run_spendbundle accepted");
-        }
-    }
     // a cache that already holds the pairings of every acceptable pair of the bundle
     let warm = BlsCache::default();
     if !warm_pairs.is_empty() {
@@ -1320,15 +1316,40 @@ fn must_reject_everywhere(
 }
 
 /// accept-type scenario: correct signature, three entry points in rotation
-fn must_accept(b: &Bundle, env: &Env, sig: &Signature, salt: usize, sig_name: &str, what: &str, ctx: &mut Ctx, label: &str) -> CaseResult {
+#[allow(clippy::too_many_arguments)]
+fn must_accept(
+    b: &Bundle,
+    control: &Bundle,
+    env: &Env,
+    signer: &mut Signer,
+    salt: usize,
+    sig_name: &str,
+    what: &str,
+    ctx: &mut Ctx,
+    label: &str,
+) -> CaseResult {
+    let sig = signer.aggregate(&expected_pairs(b, env.net).0);
     let cache = BlsCache::default();
     let plain = NOCACHE_ROTATION[salt % 5];
     let c1 = COLD_ROTATION[salt % 3];
     let c2 = COLD_ROTATION[(salt / 3 + 1) % 3];
     for (e, c, state) in [(plain, None, "none"), (c1, Some(&cache), "cold"), (c2, Some(&cache), "warm")] {
-        match run_entry(e, b, sig, c, env) {
+        match run_entry(e, b, &sig, c, env) {
             Ok(()) => ctx.label(format!("{label}:accepted:{}:cache-{state}", e.name())),
-            Err(err) => vfail!(sig_name, "{what}: correctly signed, but rejected at {} (cache {state}): {err}", e.name()),
+            Err(err) => {
+                // root cause: the special message, or the surrounding conditions?
+                let csig = signer.aggregate(&expected_pairs(control, env.net).0);
+                let fresh = BlsCache::default();
+                if let Err(cerr) = run_entry(e, control, &csig, c.map(|_| &fresh), env) {
+                    vfail!(
+                        SIG_POSITIVE,
+                        "the correctly signed bundle {} (the case's bundle without its special AGG_SIG_UNSAFE condition) was rejected at {}: {cerr}",
+                        render_bundle(control),
+                        e.name()
+                    );
+                }
+                vfail!(sig_name, "{what}: correctly signed, but rejected at {} (cache {state}): {err}", e.name());
+            }
         }
     }
     Ok(())
@@ -1438,15 +1459,15 @@ pub fn case_unsafe_and_keys(bytes: &[u8], ctx: &mut Ctx) -> CaseResult {
                 ctx.discard();
                 return Ok(());
             }
+            let control = bundle.clone();
             insert(&mut bundle, Cond { op: mc::AGG_SIG_UNSAFE, key, msg: msg.clone() });
             ctx.render(|| format!("scenario={name} net={} flags={:?} build={mode:?} bundle={}", net.name, env.flags, render_bundle(&bundle)));
-            let (all, _) = expected_pairs(&bundle, net);
-            let sig = signer.aggregate(&all);
             ctx.label(format!("{name}:constant-of-op{}", dom_ops[k]));
             must_accept(
                 &bundle,
+                &control,
                 &env,
-                &sig,
+                &mut signer,
                 salt,
                 "C05:unsafe-message-not-ending-in-domain-constant-rejected",
                 &format!("AGG_SIG_UNSAFE message {} ({name}; the nearby constant is that of {})", hexs(&msg), op_name(dom_ops[k])),
@@ -1552,6 +1573,7 @@ fn required_bundle_labels() -> &'static [&'static str] {
         }
     }
     v.push("positive:parse_spends:cache-prevalidated".into());
+    v.push("prevalidation:every-rules-pair-has-a-returned-pairing".into());
     v.push("tamper-rejected-as:BadAggregateSignature".into());
     v.push("has-duplicate-pair".into());
     v.push("msg:ends-in-domain-constant".into());
